@@ -69,7 +69,11 @@ func (g *docGen) newVar(t string, withDefault string) string {
 // value renders an argument value of type t: a literal or a variable.
 func (g *docGen) value(t *TRef, depth int) string {
 	r := g.r
-	if g.fault("wrong-literal-kind", 40) {
+	wl := 40
+	if t.Elem != nil {
+		wl = 10 // a single wrong literal where a list is expected: list coercion paths
+	}
+	if g.fault("wrong-literal-kind", wl) {
 		if r.Chance(1, 3) {
 			// a multi-line block string where something else is expected
 			return "\"\"\"\n    first line\n      second line\n    \"\"\""
@@ -250,7 +254,11 @@ func (g *docGen) selection(t *GType, depth int, ind string, sc *scope, inFrag bo
 		g.field(&b, t, f, depth, ind, sc, inFrag)
 	}
 	if r.Chance(1, 5) {
-		b.WriteString(ind + "__typename\n")
+		if g.fault("misspelt-typename", 6) {
+			b.WriteString(ind + Pick(r, []string{"__typenam", "typename", "__typeName", "_typename"}) + "\n")
+		} else {
+			b.WriteString(ind + "__typename\n")
+		}
 	}
 	if t.Kind == "INTERFACE" && r.Chance(1, 2) {
 		g.abstractSpreads(&b, t, depth, ind, sc, inFrag)
